@@ -102,6 +102,32 @@ impl Unifiable {
         }
     } // key()
 
+    /// Returns the highest ID of the logic variables in this term,
+    /// or 0 if there are none.
+    ///
+    /// # Usage
+    /// ```
+    /// use suiron::*;
+    ///
+    /// let x = logic_var!(3, "$X");
+    /// let y = logic_var!(7, "$Y");
+    /// let c = scomplex!(atom!("loves"), x, y);
+    /// let id = c.max_var_id();  // 7
+    /// ```
+    pub fn max_var_id(&self) -> usize {
+        match self {
+            Unifiable::LogicVar{id, name: _} => { *id },
+            Unifiable::SComplex(terms) |
+            Unifiable::SFunction{name: _, terms} => {
+                terms.iter().map(|t| t.max_var_id()).max().unwrap_or(0)
+            },
+            Unifiable::SLinkedList{term, next, count: _, tail_var: _} => {
+                std::cmp::max(term.max_var_id(), next.max_var_id())
+            },
+            _ => { 0 },
+        }
+    } // max_var_id()
+
     /// Tries to unify two terms.
     ///
     /// Two terms can be unified if they are identical, if one of the
